@@ -45,7 +45,7 @@ class Run:
         o.models = sorted(set(o.models) | set(ex.stats['models']))
         ex.stats['steps'] = 0; ex.stats['solver_s'] = 0.0
 
-    def explore(self, ex, st, poll=False, allow=('return',), ignore_panics=True):
+    def explore(self, ex, st, poll=False, allow_havoc=()):
         """run to completion; classify paths.  Abort paths make the obligation inconclusive."""
         paths = ex.run(st)
         if poll:
@@ -59,6 +59,9 @@ class Run:
                 raise E.Inconclusive('unmodelled construct on a feasible path: ' + str(p.info))
             if p.kind == 'unreachable':
                 raise E.Inconclusive('reached `unreachable`: ' + str(p.info))
+            for ev in p.events:
+                if ev[0] == 'havoc' and not any(re.search(rx, ev[1]) for rx in allow_havoc):
+                    raise E.Inconclusive('call without model on a feasible path (havoc): ' + ev[1])
             good.append(p)
         self.cur.paths += len(good)
         return good
